@@ -49,6 +49,8 @@ type verifRequest struct {
 	MirrorDst  string            `json:"mirror_dst"`
 	MirrorPort int               `json:"mirror_port"`
 	Phases     [][]verifDatagram `json:"phases"`
+	// max-udp-size of the protocols other than Proto (0 = same as UDPSize)
+	OtherUDPSize int `json:"other_udpsize"`
 
 	// options
 	Args   []string          `json:"args"`
@@ -94,6 +96,21 @@ func verifPipeline(req *verifRequest) (resp verifResponse) {
 	o := NewOptions()
 	o.Logger = log.New(ioutil.Discard, "", 0)
 	o.IPFIXUDPSize, o.NetflowV9UDPSize, o.NetflowV5UDPSize, o.SFlowUDPSize = req.UDPSize, req.UDPSize, req.UDPSize, req.UDPSize
+	if req.OtherUDPSize > 0 {
+		// the four protocols have independent size settings
+		other := req.OtherUDPSize
+		o.IPFIXUDPSize, o.NetflowV9UDPSize, o.NetflowV5UDPSize, o.SFlowUDPSize = other, other, other, other
+		switch req.Proto {
+		case "ipfix":
+			o.IPFIXUDPSize = req.UDPSize
+		case "nf9":
+			o.NetflowV9UDPSize = req.UDPSize
+		case "nf5":
+			o.NetflowV5UDPSize = req.UDPSize
+		case "sflow":
+			o.SFlowUDPSize = req.UDPSize
+		}
+	}
 	o.SFlowTypeFilter = req.Filter
 	opts = o
 	logger = o.Logger
@@ -296,9 +313,26 @@ func verifOptions(req *verifRequest, tmp string) (resp verifResponse) {
 			resp.Error = err.Error()
 			return
 		}
-		args = append(args, "-config", file)
+		// "@CONFIG@" among the arguments marks where "-config <file>" goes; default: in front
+		placed := false
+		for _, a := range req.Args {
+			if a == "@CONFIG@" {
+				placed = true
+			}
+		}
+		if !placed {
+			args = append(args, "-config", file)
+		}
+		for _, a := range req.Args {
+			if a == "@CONFIG@" {
+				args = append(args, "-config", file)
+			} else {
+				args = append(args, a)
+			}
+		}
+	} else {
+		args = append(args, req.Args...)
 	}
-	args = append(args, req.Args...)
 	for k, v := range req.Env {
 		os.Setenv(k, v)
 	}
